@@ -142,6 +142,7 @@ def run_case(spec):
                 return d
             if step["interrupt"] is not None:
                 reactor.interrupt_at(base + step["interrupt"])
+            fired_from = len(reactor.fired)
             try:
                 res = ("value", spinner.run(step["timeout"], f))
             except Hang:
@@ -163,6 +164,20 @@ def run_case(spec):
                 # the interrupt we scheduled is moot
                 continue
             admissible, ends, info = model_run(step)
+            w = info.get("winners", [])
+            if "timeout" in w and "result" in w and "interrupt" not in w:
+                # both timed calls were due in the same reactor pass: whichever the reactor ran first decides
+                order = []
+                for tm, c in reactor.fired[fired_from:]:
+                    fn = getattr(c, "func", None)
+                    if getattr(fn, "__name__", "") == "_timed_out":
+                        order.append("timeout")
+                    elif isinstance(getattr(fn, "__self__", None), defer.Deferred):
+                        order.append("result")
+                if order[:1] == ["timeout"]:
+                    admissible = {("raise", "TimeoutError")}
+                elif order[:1] == ["result"]:
+                    admissible = {("value", step["value"]) if step["kind"] == "fire" else ("raise", "UserError")}
             wrong_result = res not in admissible
             if wrong_result:
                 want = sorted(map(repr, admissible))
